@@ -127,7 +127,8 @@ theorem C14_open_files_exact (w : World) (hwf : ∀ d ∈ w.fds, WFFd w.fs d) :
 def Live (w : World) : Prop := w.goneBefore = false ∧ w.diesAt = none
 
 /-- **closing descriptors never fail the call for a live process**: whatever subset of the
-    descriptors closes, at whichever stage, with ENOENT or ESRCH, the call succeeds, and what
+    descriptors closes, at whichever stage (before the readlink, before fdinfo is opened, or
+    after it was opened so that its first or second read fails), with ENOENT or ESRCH, the call succeeds, and what
     it reports is exactly what it would report if the closing descriptors had never been
     listed. -/
 theorem C14_closing_fd_never_fails (w : World) (hl : Live w) (hwf : ∀ d ∈ w.fds, WFFd w.fs d) :
@@ -185,15 +186,32 @@ theorem C14_accmode3_KeyError_upstream : openFiles cfgUpstream fsW procW = .exc 
 /-- … the current one lists the file as `r+` -/
 theorem C14_accmode3_listed : openFiles cfg fsW procW = .ok [⟨[47, 102], 3, 0, mRp, 0o100003⟩] := by decide
 
+/-- descriptor `3 -> /f` whose fdinfo file opens but whose first read fails with ENOENT (the
+    descriptor was closed in between), process alive -/
+def procReadGone : Proc :=
+  { fdDir := .ok [⟨[51], .ok [47, 102],
+      .readErr [112, 111, 115, 58, 9, 48, 10, 102, 108, 97, 103, 115, 58, 9, 48, 50, 10] false .enoent⟩]
+    alive := true }
+
+/-- the clause is about the *reads* too: a variant of the code whose guard covers only the
+    `open` of fdinfo fails a live process with FileNotFoundError … -/
+theorem C14_read_after_close_needs_guard :
+    openFiles { cfg with infoReadGoneEnoent := false } fsW procReadGone = .exc .fileNotFound := by decide
+
+/-- … the current code leaves the descriptor out -/
+theorem C14_read_after_close_skipped : openFiles cfg fsW procReadGone = .ok [] := by decide
+
 /-- the hypotheses of the table theorems are satisfiable by a non-trivial table: a regular
     file, a deleted one, a socket, a device, a closing descriptor -/
-example : ∃ w : World, Live w ∧ (∀ d ∈ w.fds, WFFd w.fs d) ∧ w.fds.length = 5 ∧
+example : ∃ w : World, Live w ∧ (∀ d ∈ w.fds, WFFd w.fs d) ∧ w.fds.length = 7 ∧
     (w.fds.filterMap (listed w.fs)).length = 1 :=
   ⟨⟨[⟨3, .regular [47, 102] false, 7, 0o102001, [], none⟩,
      ⟨4, .regular [47, 103] true, 0, 2, [], none⟩,
      ⟨5, .socket 99, 0, 2, [], none⟩,
      ⟨6, .device [47, 100], 0, 2, [], none⟩,
-     ⟨7, .regular [47, 102] false, 1, 1, [], some (.beforeFdinfo .esrch)⟩], fsW, false, none⟩,
+     ⟨7, .regular [47, 102] false, 1, 1, [], some (.beforeFdinfo .esrch)⟩,
+     ⟨8, .regular [47, 102] false, 1, 1, [], some (.duringFdinfo false .enoent)⟩,
+     ⟨9, .regular [47, 102] false, 1, 1, [], some (.duringFdinfo true .esrch)⟩], fsW, false, none⟩,
    ⟨rfl, rfl⟩, by decide, rfl, by decide⟩
 
 /-! ## io_counters -/
